@@ -38,6 +38,27 @@ def loadSegmentsLoop (c : Cls) (enc : Enc) (tr : List Trans) (isLazy : Bool) (ph
       let g := { g with index := i, secs := members }
       loadSegmentsLoop c enc tr isLazy phoff entsize secs n (i + 1) ls (g :: acc)
 
+/-- reference form of the bounded string lookup: bytes of `data` from `idx` up to (excluding) the first
+    NUL, searching `[idx, size)` (`LoadTie.getString_hand`: the model's `getString`, which evaluates the
+    generated bounds tests of `get_string`, is this lookup) -/
+def cstrAt (site : String) (data : Bytes) (size idx : Nat) : M (Option Bytes) :=
+  if idx ≥ size then pure none else
+  let avail := slice data idx (size - idx)
+  match avail.idxOf? (0 : UInt8) with
+  | some k => pure (some (avail.take k))
+  | none => if avail.length < size - idx then throw (.oobRead site) else pure none
+
+/-- reference form of the name loop of `load_sections`: one `get_string` per section, in order
+    (`LoadTie.resolveNamesG_eq`: the model's indexed loop over `sections[i]` with the generated loop
+    condition and `p != nullptr` test is this map) -/
+def resolveNames (strtab : SecBuf) : List SecBuf → M (List SecBuf)
+  | [] => pure []
+  | b :: rest => do
+    let r ← getString strtab b.nameOff
+    let b := match r with | some s => { b with name := s } | none => b
+    let rest ← resolveNames strtab rest
+    pure (b :: rest)
+
 namespace LoadTie
 
 /-! ### `section_impl<T>::load` / `segment_impl<T>::load` -/
@@ -388,19 +409,6 @@ theorem load_sections_has_strtab_val (x : BitVec 16) :
       exact BitVec.eq_of_toNat_eq (by simpa using this.symm)
     rw [h1, bne_iff_ne.mpr h2]; rfl
 
-/-- `if ( p != nullptr ) sections[i]->set_name( p )` -/
-theorem resolveNames_nil (strtab : SecBuf) : resolveNames strtab [] = pure [] := rfl
-
-theorem resolveNames_cons (strtab : SecBuf) (b : SecBuf) (rest : List SecBuf) :
-    resolveNames strtab (b :: rest) =
-      (getString strtab b.nameOff >>= fun r =>
-        resolveNames strtab rest >>= fun rest' =>
-          pure ((match r with | some s => { b with name := s } | none => b) :: rest')) := by
-  rw [resolveNames]
-  congr 1
-  funext r
-  cases r <;> rfl
-
 /-! ### `elfio::load( std::istream&, bool )` and `elf_header_impl<T>::load` -/
 
 /-- `e_ident[i] != ELFMAGi` on a `char` promoted to `int` -/
@@ -602,6 +610,96 @@ def loadHand (o : Obj) (st : IStream) (isLazy : Bool) : M LoadRes := do
       pure { obj := { o with secs := secs, segs := segs, stream := ls.st }, ok := ok, allocs := ls.allocs }
 
 
+/-! ### `string_section_accessor::get_string` as the loader uses it -/
+
+/-- `get_string` with its generated bounds tests in hand form -/
+theorem getString_hand (b : SecBuf) (index : BitVec 32) :
+    getString b index =
+      (match b.data with
+       | none => pure none
+       | some d => cstrAt "get_string/memchr" d b.size.toNat index.toNat) := by
+  unfold getString
+  cases hd : b.data with
+  | none => simp
+  | some d =>
+    have hi := index.isLt
+    have hs := b.size.isLt
+    simp only [str_get_section_size, str_get_idx_ge_size, str_get_remaining, str_get_underflow, str_get_memchr_n,
+      Option.isNone_some, Bool.or_false, BitVec.ule, BitVec.ult, BitVec.toNat_setWidth, BitVec.toNat_sub,
+      Nat.reducePow]
+    rw [Nat.mod_eq_of_lt (by omega : index.toNat < 18446744073709551616)]
+    unfold cstrAt
+    by_cases hge : b.size.toNat ≤ index.toNat
+    · simp [hge]
+    · have hlt : index.toNat < b.size.toNat := by omega
+      have hrem : (18446744073709551616 - index.toNat + b.size.toNat) % 18446744073709551616
+          = b.size.toNat - index.toNat := by omega
+      have hnu : ¬ (b.size.toNat < b.size.toNat - index.toNat) := by omega
+      simp only [hge, hrem, hnu, decide_false, Bool.false_eq_true, if_false, ge_iff_le]
+      rfl
+
+/-! ### the name loop of `load_sections` -/
+
+theorem loadSectionsLoop_length (c : Cls) (enc : Enc) (tr : List Trans) (isLazy : Bool) (shoff : Int)
+    (entsize : Nat) :
+    ∀ (n i : Nat) (ls : LoadSt) (acc : List SecBuf),
+      (loadSectionsLoop c enc tr isLazy shoff entsize n i ls acc).2.length = acc.length + n := by
+  intro n
+  induction n with
+  | zero => intro i ls acc; simp [loadSectionsLoop]
+  | succ n ih =>
+    intro i ls acc
+    rw [loadSectionsLoop]
+    simp only []
+    rw [ih]
+    simp; omega
+
+theorem load_sections_names_for_val (i n : BitVec 16) :
+    load_sections_names_for i n = decide (i.toNat < n.toNat) := half_lt i n
+
+/-- the indexed name loop over the `num` sections is the map `resolveNames` -/
+theorem resolveNamesG_eq (strtab : SecBuf) (num : BitVec 16) :
+    ∀ (fuel : Nat) (i : BitVec 16) (done rest : List SecBuf),
+      done.length = i.toNat → (done ++ rest).length = num.toNat → rest.length ≤ fuel →
+      resolveNamesG strtab num fuel i (done ++ rest) =
+        (resolveNames strtab rest >>= fun r => pure (done ++ r)) := by
+  intro fuel
+  induction fuel with
+  | zero =>
+    intro i done rest _ _ hf
+    have : rest = [] := List.eq_nil_of_length_eq_zero (by omega)
+    subst this
+    rfl
+  | succ f ih =>
+    intro i done rest hd ht hf
+    unfold resolveNamesG
+    rw [load_sections_names_for_val]
+    cases rest with
+    | nil =>
+      have : ¬ i.toNat < num.toNat := by simp at ht; omega
+      simp only [this, decide_false, Bool.false_eq_true, if_false]
+      rfl
+    | cons b rest' =>
+      have hlt : i.toNat < num.toNat := by simp at ht; omega
+      have hs := half_succ i num hlt
+      have hget : (done ++ b :: rest')[i.toNat]? = some b := by
+        rw [List.getElem?_append_right (by omega)]; simp [hd]
+      simp only [hlt, decide_true, if_true, hget, resolveNames]
+      cases hg : getString strtab b.nameOff with
+      | error e => rfl
+      | ok r =>
+        simp only [bind, Except.bind]
+        have hset : ∀ b' : SecBuf, (done ++ b :: rest').set i.toNat b' = (done ++ [b']) ++ rest' := by
+          intro b'
+          rw [List.set_append_right _ _ (by omega)]
+          simp [hd]
+        rw [hset, ih (i + 1) _ rest' (by simp; omega) (by simp at ht ⊢; omega) (by simp at hf; omega)]
+        cases hr : resolveNames strtab rest' with
+        | error e => rfl
+        | ok rs =>
+          simp only [bind, Except.bind, pure, Except.pure, load_sections_name_found]
+          cases r <;> simp
+
 /-! ### header offsets of the two loops -/
 
 /-- `static_cast<std::streamoff>( offset ) + static_cast<std::streampos>( i ) * entry_size` : the header
@@ -666,9 +764,23 @@ theorem loadTables_hand (o : Obj) (c : Cls) (enc : Enc) (hdr : Bytes) (st : IStr
   simp only [hu, Bool.not_true, Bool.not_false, Bool.false_eq_true, if_false, if_true, pure_bind] <;>
   (try rfl)
   all_goals
+    have hlen := loadSectionsLoop_length c enc o.trans isLazy (Hdr.e_shoff c enc hdr).toInt
+      (Hdr.e_shentsize c enc hdr).toNat (Hdr.e_shnum c enc hdr).toNat 0 { st := st } []
     generalize loadSectionsLoop c enc o.trans isLazy (Hdr.e_shoff c enc hdr).toInt (Hdr.e_shentsize c enc hdr).toNat
-      (Hdr.e_shnum c enc hdr).toNat 0 { st := st } [] = q
-    cases q.2[(Hdr.e_shstrndx c enc hdr).toNat]? <;> simp only [pure_bind, bind_assoc] <;> rfl
+      (Hdr.e_shnum c enc hdr).toNat 0 { st := st } [] = q at hlen
+    have hnames : ∀ (strtab : SecBuf) (l : List SecBuf), l.length = (Hdr.e_shnum c enc hdr).toNat →
+        resolveNamesG strtab (Hdr.e_shnum c enc hdr) (Hdr.e_shnum c enc hdr).toNat 0 l = resolveNames strtab l := by
+      intro strtab l hl
+      have := resolveNamesG_eq strtab (Hdr.e_shnum c enc hdr) (Hdr.e_shnum c enc hdr).toNat 0 [] l rfl
+        (by simpa using hl) (by omega)
+      simp only [List.nil_append] at this
+      rw [this]
+      cases resolveNames strtab l <;> rfl
+    cases q.2[(Hdr.e_shstrndx c enc hdr).toNat]? with
+    | none => simp only [pure_bind]
+    | some strtab =>
+      simp only [pure_bind, bind_assoc]
+      rw [hnames _ _ (by rw [List.length_set]; simpa using hlen)]
 
 
 theorem wr0_getD (z src : Bytes) (i : Nat) (h : i < src.length) : (wr z 0 src).getD i 0 = src.getD i 0 := by
